@@ -7,7 +7,7 @@ ENTRIES = {
                 "connection is told to shut down, idle and still-sniffing connections close, a connection with an exchange in "
                 "flight (even a partial head) is kept until the response has been delivered and then closes. Model tied to the "
                 "real Server (HTTP/1 and auto, duplex acceptor, raw clients, gated handlers) by differential runs with the signal "
-                "at every stage.",
+                "at every stage. Also theorems over every continuation after the signal (completed for good; a client not yet accepted is never served), and end-to-end scenarios (HTTP/1.1 and HTTP/2, streamed bodies, TLS) with the signal in the middle of the traffic: every request whose handler had been entered gets its complete response, every serving future completes Ok.",
         "note": "Partial: hyper's side of graceful shutdown is an assumption encoded as per-connection rules and validated by the "
                 "correspondence; HTTP/2 connections only up to the preface; ops are atomic (tasks run to quiescence after each).",
         "design_ref": "DESIGN.md §5 C07",
